@@ -14,9 +14,11 @@
   * `record_blocks_accepted_and_recovered`: the file-level statement for the six record blocks.
   * `hitobject_lines_accepted_partial`: the lines of circles, spinners and hold notes are LF-free record lines accepted by
     `parse_hit_objects` in any state, and the same kind of object comes back (for every lawful codec).
-  Still only a statement (evaluated by the `lines` oracle and the `enc` correspondence): slider lines, timing-point lines,
-  and hence that the whole `[TimingPoints]` and `[HitObjects]` blocks are LF-free record lines accepted by their parsers
-  (`list_block_lines_accepted_statement`).
+  Slider lines and the statement over all four kinds are in Props/C04Slider.lean (`slider_line_accepted`,
+  `hitobject_lines_accepted`, `hitobjects_block_accepted`).
+  Still only a statement (evaluated by the `lines` oracle and the `enc` correspondence): timing-point lines, that every
+  object of a decoded map is representable, and hence that the whole `[TimingPoints]` and `[HitObjects]` blocks of a
+  decoded map are LF-free record lines accepted by their parsers (`list_block_lines_accepted_statement`).
 -/
 import RosuModel.Model.Encode
 import RosuModel.Props.C10
